@@ -207,7 +207,7 @@ def run(ctx):
             continue
         except fd.DumpError as e:
             dump_ok = False
-            ctx.notes.append('dumper failed closed: %s' % e)
+            ctx.histogram('dumper_failed_closed', str(e)[:60])
             continue
         nall = len(base.sites)
         if nall == 0:
@@ -314,7 +314,7 @@ def run(ctx):
         ctx.violation('correspondence Model.FlowGraph.query_pure vs fresh single queries of scope.py no longer checks on %s' % os.path.basename(fn),
                       {'kind': 'correspondence', 'theorem': 'query_pure', 'source': text}, found_input=False)
     if not dump_ok:
-        ctx.notes.append('graph dumper unavailable for some programs: only API-level comparison done there')
+        ctx.notes.append('graph dumper failed closed for some programs (see coverage.dumper_failed_closed): no model comparison there')
     if not proof_ok:
         ctx.violation('proof obligations of Props/C04.v not discharged: %s' % (ctx.notes,),
                       {'kind': 'proof', 'theorem': 'Props/C04.v', 'notes': ctx.notes,
